@@ -94,7 +94,15 @@ impl TryFrom<tir::InputQuery> for CanonicalQuery {
             .as_option()
             .map(|x| data_or_bail!(x, assets))
             .transpose()?
-            .map(|x| CanonicalAssets::from(Vec::from(x)));
+            .map(|x| {
+                // amounts must already be plain numbers (the conversion below is infallible)
+                for asset in x.iter() {
+                    data_or_bail!(asset.amount, number);
+                }
+
+                Ok::<_, Error>(CanonicalAssets::from(Vec::from(x)))
+            })
+            .transpose()?;
 
         let refs = query
             .r#ref
